@@ -576,6 +576,79 @@ theorem governance_reaches_router {σ : Type} (P : Program) (infos : List MsgInf
 
 /-! ### the dependency handlers (Cosmos SDK / IBC / ethermint), regenerated from the module cache -/
 
+/-! ### whole blocks (round 4): `FinalizeBlock` runs the transactions one after the other on the block's state -/
+
+/-- the transaction carries an authority message of a registered Msg service, served by the registered concrete type -/
+def txRoutedBy {σ : Type} (t : BlockTx σ) : Prop :=
+  ∃ r ∈ C16Sem.registrations, ∃ sv ∈ C16Sem.services, sv.pkg = r.service ∧
+    ∃ mm ∈ sv.methods, mm.2 ≠ "" ∧ t.T = r.impl ∧ t.m = mm.1 ∧ t.msg = mm.2
+
+/-- the transaction is signed with the key of an account other than the one the keeper's authority spells -/
+def txForeign {σ : Type} (t : BlockTx σ) : Prop :=
+  lowerAsciiStr t.env.gov = true ∧ ∃ g, accAddress t.env.cfg t.env.gov = some g ∧ t.signer ≠ g
+
+/-- one transaction of a block, not signed with the governance key: refused, the state the handlers write untouched -/
+theorem block_tx_foreign_noop {σ : Type} (t : BlockTx σ) (hr : txRoutedBy t) (hf : txForeign t) (s : σ) :
+    (t.run prog C16Sem.msgInfos s).2 = (.err, s) := by
+  obtain ⟨r, hr, sv, hsv, hpkg, mm, hmm, hmsg, hT, hm, hmsgEq⟩ := hr
+  obtain ⟨hgov, g, hg, hs⟩ := hf
+  unfold BlockTx.run
+  rw [hT, hm, hmsgEq]
+  exact signed_tx_needs_governance_key r hr sv hsv hpkg mm hmm hmsg t.env hgov g hg t.signer hs t.auth t.W t.payloadOk s
+
+/-- WHOLE BLOCKS: a block of ANY number of transactions carrying privileged messages (any message types, payloads,
+authorities, interleavings), none of them signed with the governance key, leaves the state the privileged handlers
+write exactly as it was, and every one of its transactions is refused — by induction over the block -/
+theorem block_needs_governance_key {σ : Type} (txs : List (BlockTx σ))
+    (h : ∀ t ∈ txs, txRoutedBy t ∧ txForeign t) (s : σ) :
+    (blockRun prog C16Sem.msgInfos txs s).2 = s ∧
+      ∀ r ∈ (blockRun prog C16Sem.msgInfos txs s).1, r.2 = .err := by
+  induction txs generalizing s with
+  | nil => simp [blockRun]
+  | cons t ts ih =>
+    have ht := h t (by simp)
+    have h1 := block_tx_foreign_noop t ht.1 ht.2 s
+    have ih' := ih (fun t' ht' => h t' (by simp [ht'])) s
+    have e1 : (t.run prog C16Sem.msgInfos s).2.2 = s := by rw [h1]
+    have e2 : (t.run prog C16Sem.msgInfos s).2.1 = .err := by rw [h1]
+    simp only [blockRun, e1, e2]
+    refine ⟨ih'.1, ?_⟩
+    intro r hr
+    rcases List.mem_cons.mp hr with rfl | hr
+    · rfl
+    · exact ih'.2 r hr
+
+/-- the state after a block is the state after ONLY its governance-signed transactions: wherever the foreign ones stand
+in the block — before, between, after — they are no-ops for the state the privileged handlers write (`p` marks the
+transactions that may be governance's; everything it does not mark is routed and foreign) -/
+theorem block_effect_is_governance_txs {σ : Type} (p : BlockTx σ → Bool) (txs : List (BlockTx σ))
+    (h : ∀ t ∈ txs, p t = false → txRoutedBy t ∧ txForeign t) (s : σ) :
+    (blockRun prog C16Sem.msgInfos txs s).2 = (blockRun prog C16Sem.msgInfos (txs.filter p) s).2 := by
+  induction txs generalizing s with
+  | nil => rfl
+  | cons t ts ih =>
+    have ih' := fun s' => ih (fun t' ht' => h t' (by simp [ht'])) s'
+    cases hp : p t with
+    | true =>
+      simp only [List.filter_cons, hp, ↓reduceIte, blockRun]
+      exact ih' _
+    | false =>
+      have ht := h t (by simp) hp
+      have h1 := block_tx_foreign_noop t ht.1 ht.2 s
+      have e1 : (t.run prog C16Sem.msgInfos s).2.2 = s := by rw [h1]
+      simp only [List.filter_cons, hp, Bool.false_eq_true, ↓reduceIte, blockRun, e1]
+      exact ih' s
+
+-- non-vacuity of `txRoutedBy` / `txForeign`: a registered service with an authority method exists; the governance string
+-- of the running app is lower-case ASCII and decodes, and an ordinary 20-byte account differs from what it decodes to
+example : C16Sem.registrations.any (fun r => C16Sem.services.any (fun sv => sv.pkg == r.service &&
+    sv.methods.any (fun mm => mm.2 != ""))) = true := by decide
+example : lowerAsciiStr (strOf "cosmos10d07y265gmmuvt4z0w9aw880jnsr700j6zn9kn") = true ∧
+    (accAddress { pref := strOf "cosmos", minLen := 1, maxLen := 255 } (strOf "cosmos10d07y265gmmuvt4z0w9aw880jnsr700j6zn9kn")).isSome = true ∧
+    accAddress { pref := strOf "cosmos", minLen := 1, maxLen := 255 } (strOf "cosmos10d07y265gmmuvt4z0w9aw880jnsr700j6zn9kn") ≠
+      some (List.replicate 20 1) := by decide +kernel
+example : (blockRun (σ := Nat) prog C16Sem.msgInfos [] 0).2 = 0 := rfl
+
 /-- obligation over `Gen/C16Dep.lean`: every keeper package the app imports could be read, and every dependency handler
 whose request carries an authority — except the listed `MsgExecLegacyContent` — starts (after statements that cannot
 touch state) with a rejecting `if` that must fire whenever the request's authority is not the keeper's authority string
